@@ -1,9 +1,13 @@
 (* Property C20 — Valid calls on degenerate graphs return values or errors, never panic.
-   Only pinned statements.  This file covers the graph-structure API (mutations and
-   queries, whose models mark every unwrap / index / lookup of the Rust code as a Panic
-   site); the algorithm families carry their own no-panic / fuel-suffices theorems in
-   C04-C06, C10-C13, C18, C19.  The sweep over ALL public functions x 8 graph kinds x
-   degenerate shapes is the correspondence/oracle part of the check (harness mode `api`). *)
+   Only pinned statements.  First part: the graph-structure API (mutations and queries, whose
+   models mark every unwrap / index / lookup of the Rust code as a Panic site) and the shortest-path
+   entry points.  Second part (section C20_rollup and below): THE ROLL-UP - one C20_total_<function>
+   per other modelled public algorithm entry point (centrality, clustering, components, community,
+   generators, GraphML), derived from the family theorems of C05, C06, C09-C13, C16, C18, C14/C19 in
+   Proofs/TotalAll.v and Proofs/LouvainTotal.v, with one evaluated non-vacuity example per family.
+   The inventory of ALL public functions is DESIGN.md section 0.10.11 (tools/c20_inventory.py).  The
+   sweep over ALL public functions x 8 graph kinds x degenerate shapes is the correspondence/oracle
+   part of the check (harness mode `api`). *)
 From Coq Require Import List Bool.
 From GV Require Import Base.Outcome Base.AMap Model.GState Model.Creation Model.Query Spec.AGraph Spec.History.
 From GV Require Import Model.Derived.
@@ -253,3 +257,377 @@ Example C20_negative_weights_err :
   | _ => False
   end.
 Proof. exact negative_weights_err. Qed.
+
+(* ======================================================================================
+   THE ROLL-UP: one statement per modelled public algorithm entry point that is not a
+   graph-structure query or a shortest-path function (those are above).  For every coherent
+   state (WF: every state reachable by any history of mutations, every graph a constructor,
+   generator or the GraphML reader returns), EVERY argument value: the outcome is `Ok _` or
+   `Err k` with k the documented kind - WrongMethod on an unsupported graph kind, NodeNotFound
+   on an absent name - never a Panic site, never OutOfFuel (the models of these functions that
+   take fuel pass a closed-form amount themselves; where the caller passes it - Louvain, the
+   gap stream of fast_gnp_random_graph - the hypothesis is explicit).  Derived from the family
+   theorems of C05, C06, C09-C13, C16, C18, C14/C19 in Proofs/TotalAll.v.  A statement whose
+   hypothesis C20's quantifier does not grant is named [_partial] and says which inputs are
+   missing and what the model does there (evaluated in the _example theorems).  The inventory
+   of ALL public functions is DESIGN.md, section 0.10.11. *)
+From GV Require Import Model.Components Model.Scc Model.Cluster Model.ClusterW Model.Square Model.Partition
+     Model.Eigen Model.Cent Model.Brandes Model.Closeness Model.Louvain Spec.PartitionDef
+     Proofs.LouvainModelOk Proofs.TotalAll Proofs.LouvainTotal.
+
+Section C20_rollup.
+  Context {T A : Type}.
+  Variable teqb : T -> T -> bool.
+  Variable tltb : T -> T -> bool.
+  Hypothesis teqb_spec : forall x y, teqb x y = true <-> x = y.
+  Hypothesis tltb_asym : forall x y, tltb x y = true -> tltb y x = false.
+  Hypothesis tltb_total : forall x y, tltb x y = false -> tltb y x = false -> x = y.
+  Notation gstate := (gstate T A).
+  Notation WF := (@WF T A teqb tltb).
+
+  (* ---- components (connectivity.rs, strong_connectivity.rs, partitioning) and breadth_first_search ---- *)
+  Theorem C20_total_connected_components : forall (g : gstate), WF g ->
+    if directed (sp g) then connected_components teqb g = Err WrongMethod
+    else exists cs, connected_components teqb g = Ok cs.
+  Proof. exact (total_connected_components teqb tltb teqb_spec tltb_total). Qed.
+
+  Theorem C20_total_number_of_connected_components : forall (g : gstate), WF g ->
+    if directed (sp g) then number_of_connected_components teqb g = Err WrongMethod
+    else exists k, number_of_connected_components teqb g = Ok k.
+  Proof. exact (total_number_of_connected_components teqb tltb teqb_spec tltb_total). Qed.
+
+  Theorem C20_total_node_connected_component : forall (g : gstate) x, WF g ->
+    if directed (sp g) then node_connected_component teqb g x = Err WrongMethod
+    else (In x (get_all_node_names g) -> exists s, node_connected_component teqb g x = Ok s) /\
+         (~ In x (get_all_node_names g) -> node_connected_component teqb g x = Err NodeNotFound).
+  Proof. exact (total_node_connected_component teqb tltb teqb_spec tltb_total). Qed.
+
+  Theorem C20_total_weakly_connected_components : forall (g : gstate), WF g ->
+    if directed (sp g) then exists cs, weakly_connected_components teqb g = Ok cs
+    else weakly_connected_components teqb g = Err WrongMethod.
+  Proof. exact (total_weakly_connected_components teqb tltb teqb_spec tltb_total). Qed.
+
+  (* [ord] = the iteration order of each successor HashSet, any order that permutes the set *)
+  Theorem C20_total_strongly_connected_components : forall (ord : list T -> list T) (g : gstate),
+    (forall l x, In x (ord l) <-> In x l) -> WF g ->
+    if directed (sp g) then exists cs, strongly_connected_components teqb ord g = Ok cs
+    else strongly_connected_components teqb ord g = Err WrongMethod.
+  Proof. exact (total_strongly_connected_components teqb tltb teqb_spec tltb_total). Qed.
+
+  (* no error channel; C20 quantifies over k >= 1 *)
+  Theorem C20_total_bfs_equal_size_partitions : forall (g : gstate) (k : nat), WF g -> (1 <= k)%nat ->
+    exists ps, bfs_equal_size_partitions g k = Ok ps.
+  Proof. exact (total_bfs_equal_size_partitions teqb tltb). Qed.
+
+  (* no error channel: required on names that exist *)
+  Theorem C20_total_breadth_first_search : forall (g : gstate) x, WF g -> In x (get_all_node_names g) ->
+    exists l, breadth_first_search teqb g x = Ok l.
+  Proof. exact (total_breadth_first_search teqb tltb teqb_spec tltb_total). Qed.
+
+  (* ---- degree_centrality: every graph, n = 0 and n = 1 included ---- *)
+  Theorem C20_total_degree_centrality : forall (g : gstate), WF g ->
+    exists l, degree_centrality teqb tltb g = Ok l /\ map fst l = get_all_node_names g.
+  Proof. exact (total_degree_centrality teqb tltb teqb_spec tltb_total). Qed.
+
+  (* ---- get_sparse_adjacency_matrix: both kinds (C20_matrix_total above is the single-edge half) ---- *)
+  Theorem C20_total_get_sparse_adjacency_matrix : forall (g : gstate), WF g ->
+    if multi (sp g) then matrix_triplets g = Err WrongMethod
+    else exists tr, matrix_triplets g = Ok tr.
+  Proof. exact (total_sparse_adjacency_matrix teqb tltb tltb_asym tltb_total). Qed.
+
+  (* ---- cluster/mod.rs, weighted = false.  [nn] is the Option<&[T]> argument: None, or ANY list of
+     names - empty, with repetitions, with names that are not nodes ---- *)
+  Theorem C20_total_triangles : forall (g : gstate) nn, WF g ->
+    (directed (sp g) = true \/ multi (sp g) = true -> triangles teqb g nn = Err WrongMethod) /\
+    (directed (sp g) = false -> multi (sp g) = false -> some_absent g nn -> triangles teqb g nn = Err NodeNotFound) /\
+    (directed (sp g) = false -> multi (sp g) = false -> all_present g nn -> exists m, triangles teqb g nn = Ok m).
+  Proof. exact (total_triangles teqb tltb teqb_spec tltb_total). Qed.
+
+  Theorem C20_total_generalized_degree : forall (g : gstate) nn, WF g ->
+    (directed (sp g) = true \/ multi (sp g) = true -> generalized_degree teqb g nn = Err WrongMethod) /\
+    (directed (sp g) = false -> multi (sp g) = false -> some_absent g nn ->
+       generalized_degree teqb g nn = Err NodeNotFound) /\
+    (directed (sp g) = false -> multi (sp g) = false -> all_present g nn ->
+       exists m, generalized_degree teqb g nn = Ok m).
+  Proof. exact (total_generalized_degree teqb tltb teqb_spec tltb_total). Qed.
+
+  Theorem C20_total_transitivity : forall (g : gstate), WF g ->
+    if directed (sp g) || multi (sp g) then transitivity teqb g = Err WrongMethod
+    else exists q, transitivity teqb g = Ok q.
+  Proof. exact (total_transitivity teqb tltb teqb_spec tltb_total). Qed.
+
+  Theorem C20_total_clustering : forall (g : gstate) nn, WF g ->
+    (multi (sp g) = true -> clustering teqb g nn = Err WrongMethod) /\
+    (multi (sp g) = false -> some_absent g nn -> clustering teqb g nn = Err NodeNotFound) /\
+    (multi (sp g) = false -> all_present g nn -> exists m, clustering teqb g nn = Ok m).
+  Proof. exact (total_clustering teqb tltb teqb_spec tltb_total). Qed.
+
+  Theorem C20_total_average_clustering : forall (g : gstate) nn cz, WF g ->
+    (multi (sp g) = true -> average_clustering teqb g nn cz = Err WrongMethod) /\
+    (multi (sp g) = false -> some_absent g nn -> average_clustering teqb g nn cz = Err NodeNotFound) /\
+    (multi (sp g) = false -> all_present g nn -> exists a, average_clustering teqb g nn cz = Ok a).
+  Proof. exact (total_average_clustering teqb tltb teqb_spec tltb_total). Qed.
+
+  (* the two cases are exhaustive *)
+  Theorem C20_present_or_absent : forall (g : gstate) nn, all_present g nn \/ some_absent g nn.
+  Proof. exact (present_or_absent teqb teqb_spec). Qed.
+
+  (* weighted = true.  PARTIAL: only the guards.  Not covered: the numeric body on a single-edge
+     graph whose edges all carry a weight, with present names.  The model computes it exactly only
+     where f64::cbrt is exact (perfect cubes) and where the maximum weight is not 0; elsewhere it
+     reports a model-domain Panic site (C20_total_cluster_example: weights 2, 1, 1).  Sweep only. *)
+  Theorem C20_total_clustering_weighted_partial : forall (g : gstate) nn cz, WF g ->
+    (multi (sp g) = true ->
+       clustering_weighted teqb g nn = Err WrongMethod /\
+       average_clustering_weighted teqb g nn cz = Err WrongMethod) /\
+    (multi (sp g) = false -> some_absent g nn ->
+       clustering_weighted teqb g nn = Err NodeNotFound /\
+       average_clustering_weighted teqb g nn cz = Err NodeNotFound) /\
+    (multi (sp g) = false -> all_present g nn -> edges_have_weight g = false ->
+       clustering_weighted teqb g nn = Err EdgeWeightNotSpecified /\
+       average_clustering_weighted teqb g nn cz = Err EdgeWeightNotSpecified).
+  Proof. exact (total_clustering_weighted_partial teqb tltb teqb_spec). Qed.
+
+  (* square_clustering has no error channel: on names of the graph it returns, on EVERY kind of
+     graph (directed, multi-edge and self-loops included) *)
+  Theorem C20_total_square_clustering : forall (g : gstate) nn, WF g -> all_present g nn ->
+    exists m, square_clustering teqb g nn = Ok m.
+  Proof. intros g nn W H. exact (square_clustering_total_any teqb tltb g W nn H). Qed.
+
+  (* ---- partitions.rs ---- *)
+  (* is_partition returns bool: ANY family of name lists (foreign names, repetitions, empty sets) *)
+  Theorem C20_total_is_partition : forall (g : gstate) comms, WF g ->
+    is_partition teqb g comms = Ok (is_partition_model teqb (get_all_node_names g) comms).
+  Proof. exact (total_is_partition teqb tltb teqb_spec). Qed.
+
+  (* modularity, ANY family, ANY weights, any resolution: NotAPartition exactly when is_partition is
+     false; on a partition Ok - or the model-domain site (total weight 0 with a non-zero community
+     term: the implementation then computes with inf; the exact model reports it).  No other Panic
+     site, no fuel. *)
+  Theorem C20_modularity_outcomes : forall (g : gstate) comms weighted gamma, WF g ->
+    (is_partition_model teqb (get_all_node_names g) comms = false ->
+       modularity teqb tltb g comms weighted gamma = Err NotAPartition) /\
+    (is_partition_model teqb (get_all_node_names g) comms = true ->
+       (exists q, modularity teqb tltb g comms weighted gamma = Ok q) \/
+       modularity teqb tltb g comms weighted gamma = Panic modularity_domain_site).
+  Proof. exact (modularity_outcomes teqb tltb teqb_spec tltb_total). Qed.
+
+  (* PARTIAL in one respect: weighted = true on a graph with a NEGATIVE stored weight is not covered
+     (see above and C20_total_partition_example: weights 1 and -1 on two disjoint edges).  With
+     weighted = false, or no negative weight (edges without weight allowed): full. *)
+  Theorem C20_total_modularity_partial : forall (g : gstate) comms weighted gamma, WF g ->
+    (weighted = true -> no_negative_weight g) ->
+    if is_partition_model teqb (get_all_node_names g) comms
+    then exists q, modularity teqb tltb g comms weighted gamma = Ok q
+    else modularity teqb tltb g comms weighted gamma = Err NotAPartition.
+  Proof. exact (total_modularity teqb tltb teqb_spec tltb_total). Qed.
+
+  (* ---- eigenvector_centrality: every WF graph, weighted flag, max_iter, tolerance; ANY number
+     structure F (binary64 as executed, the reals, ...).  The loop bound is max_iter itself. ---- *)
+  Theorem C20_total_eigenvector_centrality : forall (F : Num) (g : gstate) weighted max_iter tol, WF g ->
+    if multi (sp g) then eigenvector_centrality teqb F g weighted max_iter tol = Err WrongMethod
+    else (exists x, eigenvector_centrality teqb F g weighted max_iter tol = Ok x) \/
+         eigenvector_centrality teqb F g weighted max_iter tol = Err PowerIterationFailedConvergence.
+  Proof. intros F. exact (total_eigenvector_centrality teqb tltb teqb_spec tltb_asym tltb_total F). Qed.
+
+  (* ---- betweenness_centrality / closeness_centrality: every kind of graph, both tie choices [lw]
+     of the BinaryHeap, hop-count mode with NO hypothesis, weighted mode for ANY real weights (0 and
+     negative included - beyond the positive weights of the C05 / C06 value theorems).
+     PARTIAL: weighted = true on a graph with an edge WITHOUT weight is not covered: the models
+     have no NaN arithmetic and report [site_nan] (C20_total_centrality_example).  Sweep only. ---- *)
+  Theorem C20_total_betweenness_centrality_partial : forall (g : gstate) lw weighted normalized, WF g ->
+    (weighted = true -> all_real (get_all_edges g)) ->
+    exists m, betweenness_centrality lw g weighted normalized = Ok m.
+  Proof. exact (total_betweenness_centrality teqb tltb teqb_spec tltb_total). Qed.
+
+  Theorem C20_total_closeness_centrality_partial : forall (g : gstate) lw weighted wf_improved, WF g ->
+    (weighted = true -> all_real (get_all_edges g)) ->
+    exists m, closeness_centrality teqb tltb lw g weighted wf_improved = Ok m.
+  Proof. exact (total_closeness_centrality teqb tltb teqb_spec tltb_asym tltb_total). Qed.
+
+  (* ---- louvain_partitions / louvain_communities: both RETURN a value - no Panic site (the
+     unwraps on internal lookups of louvain.rs, the constructor Results, modularity's Result), no fuel
+     exhaustion, no Err (not even NoPartitions) - and the value is a chain of nested partitions whose
+     last level louvain_communities returns.  Fuel (arguments of the model): level fuel > N, sweep
+     fuel >= N^N.  [perms] is the model's oracle for the seeded shuffle: a row of k indexes < k for
+     every node count k <= N (shuffle_ok).  PARTIAL: hypotheses C20 does not grant are weights_ok
+     (weighted = true: every edge has a weight and none is negative) and resolution >= 0.  On the
+     excluded inputs the model either returns (negative weights with non-zero total, negative
+     resolution) or reports a model-domain site (NaN weight; total weight 0 with non-zero terms):
+     C20_total_louvain_example.  Proofs/LouvainTotal.v. ---- *)
+  Theorem C20_total_louvain_partial : forall lf sf (g : gstate) weighted res thr perms,
+    WF g -> weights_ok g weighted -> (0 <= res)%Q ->
+    (List.length (nodes_vec g) < lf)%nat -> (List.length (nodes_vec g) ^ List.length (nodes_vec g) <= sf)%nat ->
+    shuffle_ok perms (List.length (nodes_vec g)) ->
+    exists ls, louvain_partitions teqb tltb lf sf g weighted res thr perms = Ok ls /\
+               levels_ok (map nname (nodes_vec g)) ls /\
+               louvain_communities teqb tltb lf sf g weighted res thr perms = Ok (last ls []).
+  Proof. exact (louvain_total teqb tltb teqb_spec tltb_asym tltb_total). Qed.
+End C20_rollup.
+
+(* ---- generators (their arguments are numbers, not graphs) ---- *)
+From GV Require Import Model.Classic Model.Gnp Spec.GnpDef Proofs.GnpOk Proofs.GensOk Gen.KarateData.
+
+(* complete_graph(n, directed): EVERY i32 n (n <= 0 gives the empty graph), and the result is WF *)
+Theorem C20_total_complete_graph : forall n dir,
+  exists g, complete_graph n dir = Ok g /\ @WF Z unit Z.eqb Z.ltb g.
+Proof. exact total_complete_graph. Qed.
+
+(* karate_club_graph(): the unwrap at social.rs:68 is not reached with an Err *)
+Theorem C20_total_karate_club_graph :
+  exists g, karate_club_graph karate_rows karate_node_bound = Ok g /\ @WF Z unit Z.eqb Z.ltb g.
+Proof. exact total_karate_club_graph. Qed.
+
+(* fast_gnp_random_graph(n, p, directed, seed): EVERY i32 n (negative: the empty graph), EVERY f64 p
+   (NaN, infinities: InvalidArgument).  [gaps] = the skips drawn from the seed, each >= 0 (a quotient of
+   two non-positive logarithms); the model's only fuel is the length of that stream, and
+   gnp_slots(max 0 n) + 1 entries always suffice: never a Panic site (every checked i64 operation stays
+   in range), no other error. *)
+Theorem C20_total_fast_gnp_random_graph : forall n p dir gaps,
+  (- 2147483648 <= n <= i32_max)%Z -> Forall (fun k => (0 <= k)%Z) gaps ->
+  (~ p_valid p -> fast_gnp_random_graph n p dir gaps = Err InvalidArgument) /\
+  (p_valid p ->
+     (exists g, fast_gnp_random_graph n p dir gaps = Ok g /\ @WF Z unit Z.eqb Z.ltb g) \/
+     fast_gnp_random_graph n p dir gaps = OutOfFuel) /\
+  (p_valid p -> (gnp_slots (Z.max 0 n) dir < Z.of_nat (List.length gaps))%Z ->
+     exists g, fast_gnp_random_graph n p dir gaps = Ok g /\ @WF Z unit Z.eqb Z.ltb g).
+Proof. exact total_fast_gnp_random_graph. Qed.
+
+(* ---- GraphML ---- *)
+From GV Require Import Model.XmlEscape Model.GraphML.
+
+(* read_graphml_string: EVERY event sequence quick-xml can produce, every behaviour of
+   str::parse::<f64>, every GraphSpecs: a WF graph or one of four error kinds *)
+Theorem C20_total_read_graphml_string : forall (parse : bytes -> option weight) (evs : list event) (s : specs),
+  (exists g, read_events parse evs s = Ok g /\ WF bytes_eqb bytes_ltb g) \/
+  (exists k, read_events parse evs s = Err k /\
+             (k = ReadError \/ k = SelfLoopsFound \/ k = NodeNotFound \/ k = DuplicateEdge)).
+Proof. exact total_read_graphml_string. Qed.
+
+(* write_graphml_string: the model [write_events] is a function into event lists (no failure site:
+   the code asserts on writes into a Vec); on ANY graph state its output is readable without panic *)
+Theorem C20_total_write_graphml_string : forall (fmt : Z -> bytes) (parse : bytes -> option weight)
+    (g : gstate bytes unit),
+  exists evs, write_events fmt g = evs /\
+    is_panic (read_events parse evs (sp g)) = false /\ is_fuel (read_events parse evs (sp g)) = false.
+Proof. exact total_write_graphml_string. Qed.
+
+(* ---- non-vacuity: one evaluated example per family, on graphs built through the public constructor
+   (nodes 5 3 7 1 9; 9 isolated, 1 of degree one, a self-loop on 7, weights 2, 0, -1, 1, 3; directed /
+   undirected / multi-edge variants; a graph with an edge without weight; ...), and the evaluated
+   witnesses of what the _partial statements leave out ---- *)
+From GV Require Import Proofs.TotalAllExamples.
+
+Theorem C20_total_components_example :
+  WF Z.eqb Z.ltb t_gU /\ WF Z.eqb Z.ltb t_gD /\
+  connected_components Z.eqb t_gU = Ok [[5; 3; 7; 1]; [9]]%Z /\
+  number_of_connected_components Z.eqb t_gU = Ok 2%nat /\
+  node_connected_component Z.eqb t_gU 1%Z = Ok [1; 7; 5; 3]%Z /\
+  node_connected_component Z.eqb t_gU 42%Z = Err NodeNotFound /\
+  connected_components Z.eqb t_gD = Err WrongMethod /\
+  node_connected_component Z.eqb t_gD 1%Z = Err WrongMethod /\
+  weakly_connected_components Z.eqb t_gD = Ok [[5; 3; 7; 1]; [9]]%Z /\
+  strongly_connected_components Z.eqb (fun l => l) t_gD = Ok [[1]; [5; 3; 7]; [9]]%Z /\
+  weakly_connected_components Z.eqb t_gU = Err WrongMethod /\
+  strongly_connected_components Z.eqb (fun l => l) t_gU = Err WrongMethod /\
+  bfs_equal_size_partitions t_gU 2 = Ok [[5; 3; 7]; [1; 9]]%Z /\
+  breadth_first_search Z.eqb t_gD 3%Z = Ok [3; 7; 5; 1]%Z /\
+  breadth_first_search Z.eqb t_gU 9%Z = Ok [9]%Z.
+Proof. exact total_components_example. Qed.
+
+Theorem C20_total_cluster_example :
+  WF Z.eqb Z.ltb t_gM /\
+  (exists l, degree_centrality Z.eqb Z.ltb t_gU = Ok l /\ map fst l = [5; 3; 7; 1; 9]%Z) /\
+  triangles Z.eqb t_gU None = Ok [(5%Z, 1%nat); (3%Z, 1%nat); (7%Z, 1%nat); (1%Z, 0%nat); (9%Z, 0%nat)] /\
+  triangles Z.eqb t_gU (Some [42%Z]) = Err NodeNotFound /\
+  triangles Z.eqb t_gD None = Err WrongMethod /\
+  generalized_degree Z.eqb t_gM None = Err WrongMethod /\
+  transitivity Z.eqb t_gU = Ok (3 # 5)%Q /\
+  transitivity Z.eqb t_gD = Err WrongMethod /\
+  clustering Z.eqb t_gD (Some [7; 9]%Z) = Ok [(7%Z, (1 # 6)%Q); (9%Z, 0%Q)] /\
+  clustering Z.eqb t_gD (Some [7; 42]%Z) = Err NodeNotFound /\
+  clustering Z.eqb t_gM None = Err WrongMethod /\
+  average_clustering Z.eqb t_gU None false = Ok (Some (7 # 9)%Q) /\
+  (exists m, square_clustering Z.eqb t_gU None = Ok m /\ List.length m = 5%nat) /\
+  square_clustering Z.eqb t_gD (Some [7%Z]) = Ok [(7%Z, 0%Q)] /\
+  (exists m, square_clustering Z.eqb t_gM None = Ok m /\ List.length m = 5%nat).
+Proof. exact total_cluster_example. Qed.
+
+Theorem C20_total_clustering_weighted_example :
+  WF Z.eqb Z.ltb t_gN /\ WF Z.eqb Z.ltb t_gT /\
+  clustering_weighted Z.eqb t_gM None = Err WrongMethod /\
+  clustering_weighted Z.eqb t_gU (Some [42%Z]) = Err NodeNotFound /\
+  clustering_weighted Z.eqb t_gN None = Err EdgeWeightNotSpecified /\
+  average_clustering_weighted Z.eqb t_gN None true = Err EdgeWeightNotSpecified /\
+  (exists m, clustering_weighted Z.eqb t_gU None = Ok m /\ List.length m = 5%nat) /\
+  clustering_weighted Z.eqb t_gT None = Panic "cbrt: not a perfect cube".
+Proof. exact total_clustering_weighted_example. Qed.
+
+Theorem C20_total_partition_example :
+  is_partition Z.eqb t_gU [[5; 3]; [7; 1; 9]]%Z = Ok true /\
+  is_partition Z.eqb t_gU [[5; 3]; [7; 1; 42]]%Z = Ok false /\
+  is_partition Z.eqb t_gU [[5; 3]; [3; 7; 1; 9]; []]%Z = Ok false /\
+  modularity Z.eqb Z.ltb t_gU [[5; 3]; [7; 1; 9]]%Z false 1 = Ok (Some (2 # 25)%Q) /\
+  modularity Z.eqb Z.ltb t_gU [[5; 3]; [7; 1]]%Z false 1 = Err NotAPartition /\
+  modularity Z.eqb Z.ltb t_gU [[5; 3]; [7; 1; 9]]%Z true 1 = Ok (Some (31 # 50)%Q) /\
+  no_negative_weight t_gN /\ modularity Z.eqb Z.ltb t_gN [[5; 3]; [7; 1; 9]]%Z true 1 = Ok None /\
+  WF Z.eqb Z.ltb t_gZ /\ ~ no_negative_weight t_gZ /\
+  modularity Z.eqb Z.ltb t_gZ [[1; 2]; [3; 4]]%Z true 1 = Panic modularity_domain_site /\
+  modularity Z.eqb Z.ltb t_gZ [[1; 2]; [3; 4]]%Z false 1 = Ok (Some (1 # 2)%Q) /\
+  modularity Z.eqb Z.ltb t_gZ [[1; 2]; [3; 3]]%Z true 1 = Err NotAPartition.
+Proof. exact total_partition_example. Qed.
+
+Theorem C20_total_eigenvector_example :
+  (exists x, eigenvector_centrality Z.eqb NumQ t_gT true (Some 3%nat) (Some (1 # 2)%Q) = Ok x /\ List.length x = 3%nat) /\
+  eigenvector_centrality Z.eqb NumQ t_gT true (Some 1%nat) (Some (1 # 1000000)%Q) = Err PowerIterationFailedConvergence /\
+  (exists x, eigenvector_centrality Z.eqb NumQ t_gN true (Some 5%nat) (Some (1 # 1)%Q) = Ok x /\ List.length x = 5%nat) /\
+  eigenvector_centrality Z.eqb NumQ t_gM true None None = Err WrongMethod.
+Proof. exact total_eigenvector_example. Qed.
+
+Theorem C20_total_centrality_example :
+  all_real (get_all_edges t_gU) /\ all_real (get_all_edges t_gD) /\ ~ all_real (get_all_edges t_gN) /\
+  betweenness_centrality false t_gU true true = Ok [(5%Z, 0%Q); (3%Z, 0%Q); (7%Z, (3 # 4)%Q); (1%Z, 0%Q); (9%Z, 0%Q)] /\
+  betweenness_centrality true t_gD true false = Ok [(5%Z, 1%Q); (3%Z, 2%Q); (7%Z, 3%Q); (1%Z, 0%Q); (9%Z, 0%Q)] /\
+  betweenness_centrality false t_gN false true = Ok [(5%Z, 0%Q); (3%Z, (1 # 6)%Q); (7%Z, 0%Q); (1%Z, 0%Q); (9%Z, 0%Q)] /\
+  betweenness_centrality false t_gN true true = Panic site_nan /\
+  closeness_centrality Z.eqb Z.ltb false t_gU true true = Ok [(5%Z, 0%Q); (3%Z, 0%Q); (7%Z, 0%Q); (1%Z, (9 # 8)%Q); (9%Z, 0%Q)] /\
+  closeness_centrality Z.eqb Z.ltb true t_gD true false = Ok [(5%Z, 0%Q); (3%Z, (2 # 3)%Q); (7%Z, 1%Q); (1%Z, (3 # 5)%Q); (9%Z, 0%Q)] /\
+  closeness_centrality Z.eqb Z.ltb false t_gN false true = Ok [(5%Z, (1 # 3)%Q); (3%Z, (1 # 2)%Q); (7%Z, (1 # 3)%Q); (1%Z, 0%Q); (9%Z, 0%Q)] /\
+  closeness_centrality Z.eqb Z.ltb false t_gN true true = Panic site_nan.
+Proof. exact total_centrality_example. Qed.
+
+Theorem C20_total_louvain_example :
+  WF Z.eqb Z.ltb t_gT /\ weights_ok t_gT true /\ weights_ok t_gT false /\ (0 <= 1)%Q /\
+  (List.length (nodes_vec t_gT) < 4)%nat /\ (List.length (nodes_vec t_gT) ^ List.length (nodes_vec t_gT) <= 27)%nat /\
+  shuffle_ok t_perms3 (List.length (nodes_vec t_gT)) /\
+  louvain_partitions Z.eqb Z.ltb 4 27 t_gT true 1 (1 # 10000000)%Q t_perms3 = Ok [[[2; 1; 3]]]%Z /\
+  louvain_communities Z.eqb Z.ltb 4 27 t_gT false 1 (1 # 10000000)%Q t_perms3 = Ok [[1; 3; 2]]%Z /\
+  (* directed, and multi-edge (collapsed by to_single_edges first), five nodes, fuel 6 and 5^5 *)
+  louvain_communities Z.eqb Z.ltb 6 3125 t_gD false 1 (1 # 10000000)%Q t_perms5 = Ok [[1; 7]; [3; 5]; [9]]%Z /\
+  louvain_communities Z.eqb Z.ltb 6 3125 t_gM false 1 (1 # 10000000)%Q t_perms5 = Ok [[1; 7]; [3; 5]; [9]]%Z /\
+  (* what the hypotheses exclude, evaluated: an ill-formed shuffle table (the model's own oracle) ... *)
+  louvain_partitions Z.eqb Z.ltb 4 27 t_gT true 1 (1 # 10000000)%Q [[0%nat]] =
+    Panic "model: shuffle table has no row for this node count" /\
+  (* ... weighted = true with an edge without weight, or with weights 1 and -1 adding up to 0:
+     model-domain sites (no NaN / inf arithmetic in the exact model) ... *)
+  ~ weights_ok t_gN true /\
+  louvain_partitions Z.eqb Z.ltb 6 3125 t_gN true 1 (1 # 10000000)%Q t_perms5 = Panic nan_site /\
+  louvain_partitions Z.eqb Z.ltb 6 3125 t_gZ true 1 (1 # 10000000)%Q t_perms5 = Panic modularity_domain_site /\
+  (* ... while other inputs outside the hypotheses just return: negative weights with a non-zero
+     total, a negative resolution *)
+  ~ weights_ok t_gU true /\
+  louvain_partitions Z.eqb Z.ltb 6 3125 t_gU true 1 (1 # 10000000)%Q t_perms5 = Ok [[[1; 7]; [3; 5]; [9]]]%Z /\
+  louvain_partitions Z.eqb Z.ltb 6 3125 t_gU false (-1) (1 # 10000000)%Q t_perms5 = Ok [[[3; 7; 5; 1]; [9]]]%Z.
+Proof. exact total_louvain_example. Qed.
+
+(* generators and GraphML: arguments outside the "valid" range, evaluated *)
+Theorem C20_total_generators_example :
+  (exists g, complete_graph (-3) true = Ok g /\ get_all_nodes g = []) /\
+  (exists g, complete_graph 1 false = Ok g /\ List.length (get_all_nodes g) = 1%nat /\ get_all_edges g = []) /\
+  fast_gnp_random_graph 4 FNaN true [0%Z] = Err InvalidArgument /\
+  fast_gnp_random_graph 4 (FInf false) false [] = Err InvalidArgument /\
+  (exists g, fast_gnp_random_graph (-7) (FFin (1 # 2)) false [] = Ok g /\ get_all_nodes g = []) /\
+  fast_gnp_random_graph 4 (FFin (1 # 2)) false [1%Z] = OutOfFuel /\
+  (exists g, fast_gnp_random_graph 4 (FFin (1 # 2)) false [1; 0; 2; 0; 0; 7; 0]%Z = Ok g /\
+             List.length (get_all_edges g) = 3%nat).
+Proof. exact total_generators_example. Qed.
